@@ -59,9 +59,9 @@ def install_math_shim():
 
 
 def lib_eps() -> Fraction:
-    from pddl_plus_parser.models import numerical_expression as ne
-
-    return Fraction(ne.EPSILON)
+    """the CONFIGURED tolerance: the EPSILON environment setting (documented default 0.0001) -- read from the configuration, not
+    from the library's module variable, so that a library that misreads its configuration disagrees with the oracle"""
+    return Fraction(float(os.environ.get("EPSILON", 0.0001)))
 
 
 def parse_domain(text: str, **kw):
